@@ -5,6 +5,7 @@ The cached validator computes the cache-free check (`checkMsg`) on every cache w
 and keeps the cache sound — through hits, misses, inserts, flip/flop rotation, group eviction and
 pruning. This is the engine of `validate_history_independent` (C05) and of the shared-cache clause of C13.
 -/
+set_option linter.unusedSimpArgs false
 namespace F3.Validator
 open F3.Msg F3.Cache
 
@@ -237,5 +238,80 @@ theorem runOps_sound {cfg : Cfg} {comt : Nat → Option Committee} (ops : List C
   induction ops generalizing cache with
   | nil => exact hs
   | cons op t ih => exact ih (applyOp_sound hs op)
+
+/-! ### capacity of reachable caches -/
+
+/-- Any property of the cache that look-ups and inserts preserve is preserved by the validator. -/
+theorem validateMsgK_preserves (P : VCache → Prop)
+    (hc : ∀ c g k, P c → P (GroupedSet.contains c g k).2) (ha : ∀ c g k, P c → P (GroupedSet.add c g k).2)
+    (cfg : Cfg) (comt : Nat → Option Committee) (cache : VCache) (vk : Option VKey) (m : Msg)
+    (h : P cache) : P (validateMsgK cfg comt cache vk m).2 := by
+  have hj : ∀ (c : Committee) (cache : VCache), P cache → P (validateJust cfg c cache vk m).2 := by
+    intro c cache h
+    unfold validateJust
+    split
+    · exact h
+    · split
+      · exact h
+      · simp only
+        split
+        · exact hc _ _ _ h
+        · split
+          · exact ha _ _ _ (hc _ _ _ h)
+          · exact hc _ _ _ h
+  have hb : ∀ (c : Committee) (cache : VCache), P cache → P (validateBody cfg c cache vk m).2 := by
+    intro c cache h
+    unfold validateBody
+    split
+    · exact h
+    · exact hj c cache h
+    · exact h
+  unfold validateMsgK
+  simp only
+  cases hk : msgCKey vk m with
+  | none =>
+    simp only [Bool.false_eq_true, if_false]
+    split
+    · exact h
+    · split
+      · exact hb _ _ h
+      · exact hb _ _ h
+  | some key =>
+    simp only
+    split
+    · exact hc _ _ _ h
+    · split
+      · exact hc _ _ _ h
+      · split
+        · exact ha _ _ _ (hb _ _ (hc _ _ _ h))
+        · exact hb _ _ (hc _ _ _ h)
+
+theorem applyOp_preserves (P : VCache → Prop)
+    (hc : ∀ c g k, P c → P (GroupedSet.contains c g k).2) (ha : ∀ c g k, P c → P (GroupedSet.add c g k).2)
+    (hr : ∀ c n, P c → P (GroupedSet.removeLessThan c n))
+    (cfg : Cfg) (comt : Nat → Option Committee) (cache : VCache) (op : CacheOp) (h : P cache) :
+    P (applyOp cfg comt cache op) := by
+  cases op with
+  | validate p m =>
+    show P (validate cfg comt p cache m).2
+    unfold validate
+    cases byProgress cfg p m.vote with
+    | some e => exact h
+    | none => exact validateMsgK_preserves P hc ha cfg comt cache none m h
+  | partially p pm =>
+    show P (partially cfg comt p cache pm).2
+    unfold partially
+    cases byProgress cfg p pm.msg.vote with
+    | some e => exact h
+    | none => exact validateMsgK_preserves P hc ha cfg comt cache _ _ h
+  | prune n => exact hr _ _ h
+
+theorem runOps_bounded (cfg : Cfg) (comt : Nat → Option Committee) (ops : List CacheOp) (cache : VCache)
+    (h : cache.bounded) : (runOps cfg comt cache ops).bounded := by
+  induction ops generalizing cache with
+  | nil => exact h
+  | cons op t ih =>
+    exact ih _ (applyOp_preserves GroupedSet.bounded (fun c g k h => (bounded_contains h g k).1)
+      (fun c g k h => (bounded_add h g k).1) (fun c n h => bounded_removeLessThan h n) cfg comt cache op h)
 
 end F3.Validator
